@@ -132,6 +132,11 @@ def evaluate(case):
                               f"{es[k + 1]:.4g} at {rungs[k + 1]} (needs <= {RATIO} x); ladder {[round(e, 5) for e in es]}",
                               case=case, observed=es, tol=RATIO))
                 break
+        lim = 2 * es[-1] - es[-2]  # first-order Richardson estimate of the error's limit: must vanish
+        if lim > 0.5 * es[-1] + FLOOR:
+            viol.append(V(f"convergence/limit/{key}", f"{key} extrapolates to {lim:.4g} under refinement (ladder "
+                          f"{[round(e, 5) for e in es]}): the scheme converges to something else than the documented "
+                          "problem (measured <= 0.24 E_last)", case=case, observed=lim, tol=0.5 * es[-1] + FLOOR))
         if es[-1] > CAP / rungs[-1][0]:
             viol.append(V(f"convergence/cap/{key}", f"{key} = {es[-1]:.4g} at {rungs[-1]} exceeds the first-order "
                           f"cap {CAP}/nx = {CAP / rungs[-1][0]:.4g}; ladder {[round(e, 5) for e in es]}", case=case,
